@@ -51,6 +51,8 @@ class CFG:
         self.pred[n.id] = []
         if astnode is not None:
             self.by_ast[id(astnode)] = n
+        if kind in ('test', 'iter') and stmt is not None:
+            self.by_ast[id(stmt)] = n
         if kind in ('stmt', 'test', 'iter', 'with', 'handler'):
             self.loop_of[n.id] = [l['head'] for l in self._loops]
         return n
@@ -347,9 +349,9 @@ def guards(node, stop=None):
             for fieldname in ('body', 'orelse', 'finalbody'):
                 block = getattr(par, fieldname, None)
                 if isinstance(block, list) and cur in block:
-                    if isinstance(par, ast.If):
+                    if isinstance(par, ast.If) and par is not stop:
                         out.append((par.test, fieldname == 'body', 'if'))
-                    elif isinstance(par, ast.While) and fieldname == 'body':
+                    elif isinstance(par, ast.While) and fieldname == 'body' and par is not stop:
                         out.append((par.test, True, 'while'))
                     idx = block.index(cur)
                     for prev in block[:idx]:
